@@ -94,3 +94,6 @@ pub fn read_mp4(f: File) -> Result<Mp4Reader<BufReader<File>>> {
     let mp4 = reader::Mp4Reader::read_header(reader, size)?;
     Ok(mp4)
 }
+
+#[cfg(mp4_verif)]
+pub mod verif_hooks;
